@@ -206,7 +206,13 @@ extern uint64_t yk_clock_now;
 static inline uint64_t yk_clock(void) { uint64_t d = nondet_uint64(); YK_ASSUME(d < (1ULL << 40)); yk_clock_now += d; return yk_clock_now; }
 extern void* yk_thread_fn[4];
 extern uint32_t yk_threads_started;
-static inline void yk_thread_start(void* thr, void* state) { if (yk_threads_started < 4) yk_thread_fn[yk_threads_started] = state; yk_threads_started++; *(uint64_t*)thr = yk_threads_started; }
+static inline void yk_thread_start(void* thr, void* state_uptr)
+{   /* takes ownership of the _State object out of the unique_ptr argument, as the real _M_start_thread does */
+    yk_thread_fn[yk_threads_started % 4] = *(void**)state_uptr;
+    *(void**)state_uptr = 0;
+    yk_threads_started++;
+    *(uint64_t*)thr = yk_threads_started;
+}
 void yk_thread_join(void* thr);
 /* ---- watch: count hooked STOREs to one address (single-word publication, C19/C17) */
 extern const void* yk_watch_ptr;
@@ -242,6 +248,17 @@ static inline void yk_sleep(void) { }
 #define YK_MAX_LAYERS 1
 #endif
 extern uint32_t yk_layers;
+extern uint32_t yk_sleeps;
+#ifndef YK_MAX_SLEEPS
+#define YK_MAX_SLEEPS 6
+#endif
+#ifdef YK_HAVE_ON_SLEEP
+void f_yk_on_sleep(uint32_t n);
+#define yk_on_sleep f_yk_on_sleep
+#else
+static inline void yk_on_sleep(uint32_t n) { (void)n; }
+#endif
+static inline void yk_stop(void) { YK_ASSUME(0); }
 static inline void yk_hook(int kind, const void* p)
 {
     yk_watch_note(kind, p);
@@ -250,6 +267,12 @@ static inline void yk_hook(int kind, const void* p)
      * assertion says so (this also keeps symex from unrolling the retry loops) */
     if (kind == 3) { YK_ASSERT(0, "fault: single thread retries (RETRY hook reached)"); YK_ASSUME(0); }
     /* descent into the next trie layer: bounded by the number of layers the harness's shape has */
+    /* epoch / gc period: the harness observes every period through yk_on_sleep(); the number of periods is bounded */
+    if (kind == 4) {
+        yk_sleeps++;
+        yk_on_sleep(yk_sleeps);
+        if (yk_sleeps > YK_MAX_SLEEPS) { YK_ASSERT(0, "bound: more epoch/gc periods than YK_MAX_SLEEPS"); YK_ASSUME(0); }
+    }
     if (kind == 5) { yk_layers++; if (yk_layers >= YK_MAX_LAYERS) { YK_ASSERT(0, "bound: descent below the deepest layer of the shape"); YK_ASSUME(0); } }
 }
 #endif
